@@ -1,2 +1,347 @@
-import FpgoVerif.Model.C07
-/-! Property theorems for C07 (none yet). -/
+import FpgoVerif.Proofs.C07Inv
+import FpgoVerif.Proofs.C07Drain
+import FpgoVerif.Gen.Skeletons
+import FpgoVerif.Gen.BCQGuards
+/-! Property theorems for C07 — Channel/Buffered queues: bounded, FIFO, exactly-once delivery, nothing stranded.
+    `step`, `run`, `Reach`, `count`, `chTrySend`, `chTryRecv` are the definitions the driver executes.
+    All theorems hold for every channelCapacity `c`, every bufferSizeMaximum `b` (including 0 and 1), any number
+    of producers and consumers, any interleaving with the loader, any number of steps. -/
+namespace FpgoVerif.C07
+
+/-- **FIFO, exactly once, nothing invented, nothing lost.**  In every reachable state the values delivered so
+    far, followed by the channel buffer, the loader's in-flight value and the overflow pool, are exactly the
+    values accepted so far (Offer/Put returned nil), in acceptance order. -/
+theorem C07_fifo (c b : Nat) (s : St) (h : Reach c b s) :
+    s.delivered ++ s.chan ++ optl s.inflight ++ s.pool = s.accepted :=
+  (reach_inv h).fifo
+
+/-- consequence: the delivery sequence is a prefix of the acceptance sequence — every delivered value was
+    accepted (no invention), is delivered once per acceptance (no duplication), in acceptance order (FIFO
+    globally, hence per producer), and every accepted value not yet delivered is still held (nothing lost). -/
+theorem C07_delivered_prefix (c b : Nat) (s : St) (h : Reach c b s) :
+    s.delivered <+: s.accepted ∧ s.accepted.length = s.delivered.length + s.chan.length + (optl s.inflight).length + s.pool.length := by
+  have hf := C07_fifo c b s h
+  constructor
+  · exact ⟨s.chan ++ optl s.inflight ++ s.pool, by rw [← hf]; simp [List.append_assoc]⟩
+  · rw [← hf]; simp [List.length_append]; omega
+
+/-- per-producer order: the values of any one producer (any predicate on values) come out in the order they
+    were accepted -/
+theorem C07_per_producer_fifo (c b : Nat) (s : St) (h : Reach c b s) (mine : Nat → Bool) :
+    s.delivered.filter mine <+: s.accepted.filter mine := by
+  obtain ⟨t, ht⟩ := (C07_delivered_prefix c b s h).1
+  exact ⟨t.filter mine, by rw [← ht, List.filter_append]⟩
+
+/-- **Bounds.**  The channel never holds more than `c`, pool plus in-flight never more than `b`; so the queue
+    never holds more than `c + b` values. -/
+theorem C07_bound (c b : Nat) (s : St) (h : Reach c b s) :
+    s.chan.length ≤ c ∧ s.pool.length + (optl s.inflight).length ≤ b ∧
+    s.accepted.length - s.delivered.length ≤ c + b := by
+  have i := reach_inv h
+  obtain ⟨hc, hb⟩ := reach_cfg h
+  have hl := (C07_delivered_prefix c b s h).2
+  have := i.chanB; have := i.poolB
+  omega
+
+/-- **Offer fails only with ErrQueueIsFull, and only with the overflow buffer at its maximum** (and, when the
+    pool was seen empty, only after the channel try-send failed: buffer full, no receiver to hand over to). -/
+theorem C07_offer_full_only_at_max (c b : Nat) (s s' : St) (h : Reach c b s) (v : Nat)
+    (hs : step s (.offerFull v) = some s') :
+    s.pool.length = b ∧ (s.pool = [] → c ≤ s.chan.length) ∧
+    s'.accepted = s.accepted ∧ s'.chan = s.chan ∧ s'.pool = s.pool := by
+  have i := reach_inv h
+  obtain ⟨hc, hb⟩ := reach_cfg h
+  simp only [step] at hs
+  split at hs <;> simp at hs
+  rename_i hg; subst hs
+  have := i.poolB
+  refine ⟨by omega, ?_, rfl, rfl, rfl⟩
+  intro hp
+  rcases hg.1 with h1 | h1
+  · -- the pool was seen non-empty under the lock, and nobody else can have changed it
+    exact absurd hp (i.sawNonEmpty v h1)
+  · have := h1.2.1; omega
+
+/-- **Offer never blocks**: once it holds the lock exactly one of its four outcomes is enabled -/
+theorem C07_offer_total (s : St) (v : Nat) (e : Bool) (hl : s.lock = .producer v e) :
+    (step s (.offerChan v)).isSome ∨ (step s (.offerHandoff v)).isSome ∨
+    (step s (.offerFull v)).isSome ∨ (step s (.offerPool v)).isSome := by
+  cases e with
+  | false =>
+    by_cases hb : s.b ≤ s.pool.length
+    · right; right; left; simp [step, hl, hb]
+    · right; right; right; simp [step, hl]; omega
+  | true =>
+    by_cases hc : s.chan.length < s.c
+    · left; simp [step, hl, hc]
+    · by_cases hh : s.chan = [] ∧ 0 < s.waiters
+      · right; left; simp [step, hl, hh]
+      · have hf : trySendFails s := by
+          refine ⟨by omega, ?_⟩
+          by_cases h0 : s.chan = []
+          · left; by_cases hw : 0 < s.waiters
+            · exact absurd ⟨h0, hw⟩ hh
+            · omega
+          · right; exact h0
+        by_cases hb : s.b ≤ s.pool.length
+        · right; right; left; simp [step, hl, hf, hb]
+        · right; right; right; simp [step, hl, hf]; omega
+
+/-- **Poll never blocks and reports ErrQueueIsEmpty only when nothing is immediately available** -/
+theorem C07_poll_total_and_empty_only_if_empty (s : St) :
+    ((step s .tryRecv).isSome ∨ (step s .pollEmpty).isSome) ∧
+    (∀ s', step s .pollEmpty = some s' → s.chan = [] ∧ s' = s) := by
+  constructor
+  · cases hc : s.chan with
+    | nil => right; simp [step, hc]
+    | cons x r => left; simp [step, hc]
+  · intro s' h
+    simp only [step] at h
+    split at h <;> simp at h
+    rename_i hc; exact ⟨hc, h.symm⟩
+
+/-- **Count at quiescence**: with no Offer and no loader pass in progress, `Count()` (= len(channel) +
+    pool.Count()) equals accepted minus delivered -/
+theorem C07_count (c b : Nat) (s : St) (h : Reach c b s) (hq : s.lock = .free) :
+    count s = s.accepted.length - s.delivered.length := by
+  have i := reach_inv h
+  have hin : s.inflight = none := inflight_none_of_not_loader i.infl (by simp [hq])
+  have := (C07_delivered_prefix c b s h).2
+  simp [hin] at this
+  simp [count]; omega
+
+/-! ### nothing stranded (channelCapacity ≥ 1), phrased per call
+
+    Every Take / TakeWithTimeout / Poll / GetChannel starts with `notify`; a posted token is never lost
+    (`C07_token_persists`) and wakes the loader (`loaderWake` is enabled whenever token ∧ waiting); the pass
+    that follows moves the OLDEST pooled value into the channel whenever the channel has room
+    (`C07_pass_moves_head`), so after the pass triggered by a call on an empty channel the channel is
+    non-empty (`C07_progress`) and the next receive delivers exactly the next value in acceptance order
+    (`C07_fifo`).  Hence repeated Take/Poll calls retrieve every accepted value without any further Offer.
+    (Fairness of the Go scheduler — the loader goroutine eventually runs — is an assumption, not a theorem.) -/
+
+/-- a pending wake-up is consumed only by the loader -/
+theorem C07_token_persists (s s' : St) (a : Act) (h : step s a = some s') (ht : s.token = true)
+    (ha : a ≠ .loaderWake) : s'.token = true := by
+  cases a <;> simp only [step] at h <;> (repeat' split at h) <;> simp at h <;> (try subst h) <;> simp_all
+
+/-- inside a pass with room in the channel: `pool.Poll()` then the try-send move the head of the pool to
+    the tail of the channel -/
+theorem C07_pass_moves_head (s : St) (x : Nat) (rest : List Nat) (hl : s.lock = .loader)
+    (hin : s.inflight = none) (hp : s.pool = x :: rest) (hroom : s.chan.length < s.c) :
+    run s [.loaderPoll, .loaderSend] = some { s with chan := s.chan ++ [x], pool := rest } := by
+  simp [run, step, hl, hin, hp, hroom]
+
+/-- the call-triggered pass refills an empty channel from a non-empty pool -/
+theorem C07_progress (c b : Nat) (s : St) (h : Reach c b s) (hc : 1 ≤ c) (hl : s.lock = .free)
+    (hw : s.lpc = .waiting) (hch : s.chan = []) (x : Nat) (rest : List Nat) (hp : s.pool = x :: rest) :
+    ∃ s', run s [.notify, .loaderWake, .loaderLock, .loaderPoll, .loaderSend] = some s' ∧
+      s'.chan = [x] ∧ s'.pool = rest ∧ s'.accepted = s.accepted ∧ s'.delivered = s.delivered ∧
+      (step s' .tryRecv).map (·.delivered) = some (s.delivered ++ [x]) := by
+  have i := reach_inv h
+  have hin : s.inflight = none := inflight_none_of_not_loader i.infl (by simp [hl])
+  have hcc : 0 < s.c := by have := (reach_cfg h).1; omega
+  refine ⟨_, by simp [run, step, hl, hw, hch, hp, hin, hcc]; rfl, ?_⟩
+  simp [step]
+
+/-- the same when the loader already holds a token (it stands before `Lock`) -/
+theorem C07_progress_woke (c b : Nat) (s : St) (h : Reach c b s) (hc : 1 ≤ c) (hl : s.lock = .free)
+    (hw : s.lpc = .woke) (hch : s.chan = []) (x : Nat) (rest : List Nat) (hp : s.pool = x :: rest) :
+    ∃ s', run s [.loaderLock, .loaderPoll, .loaderSend] = some s' ∧ s'.chan = [x] ∧ s'.pool = rest := by
+  have i := reach_inv h
+  have hin : s.inflight = none := inflight_none_of_not_loader i.infl (by simp [hl])
+  have hcc : 0 < s.c := by have := (reach_cfg h).1; omega
+  exact ⟨_, by simp [run, step, hl, hw, hch, hp, hin, hcc]; rfl, by simp, rfl⟩
+
+/-- a loader pass started under the lock always runs to completion (with nobody blocked in a receive it ends by
+    `loaderDone` or `loaderUnshift`), leaves `delivered`/`accepted` untouched, and leaves the channel non-empty if it
+    was non-empty or there was anything to move and c ≥ 1 -/
+theorem C07_pass_terminates (s : St) (hl : s.lock = .loader) (hw : s.waiters = 0) :
+    ∃ acts s', acts.all noOffer = true ∧ run s acts = some s' ∧ s'.lock = .free ∧ s'.lpc = .waiting ∧
+      s'.delivered = s.delivered ∧ s'.accepted = s.accepted ∧
+      ((s.chan ≠ [] ∨ ((s.inflight ≠ none ∨ s.pool ≠ []) ∧ 0 < s.c)) → s'.chan ≠ []) := by
+  obtain ⟨acts, s', ha, hr, pe⟩ := pass_finishes (passMeasure s + 1) s (by omega) hl hw
+  exact ⟨acts, s', ha, hr, pe.lock, pe.lpc, pe.deliv, pe.acc, pe.chanNe⟩
+
+/-- **Nothing stranded, whole queue (c ≥ 1).**  From every reachable quiescent state (no Offer in progress, no
+    pass in progress, nobody blocked in a receive) there is a continuation consisting only of Poll atoms (`notify`,
+    `tryRecv`) and loader atoms — no further Offer — after which every accepted value has been delivered; by
+    `C07_fifo` in acceptance order.  (Existence of the schedule = what repeated Poll calls and the passes they
+    trigger do under a fair scheduler; fairness itself is an assumption.) -/
+theorem C07_drain (c b : Nat) (s : St) (h : Reach c b s) (hc : 1 ≤ c) (hl : s.lock = .free)
+    (hp : s.lpc ≠ .inpass) (hw : s.waiters = 0) :
+    ∃ acts s', acts.all noOffer = true ∧ run s acts = some s' ∧ s'.delivered = s.accepted ∧
+      s'.accepted = s.accepted ∧ Reach c b s' := by
+  obtain ⟨acts, s', ha, hr, hd, hacc⟩ := drain (s.accepted.length - s.delivered.length + 1) s (reach_inv h)
+    (by rw [(reach_cfg h).1]; exact hc) hl hp hw (by omega)
+  obtain ⟨pre, hpre⟩ := h
+  refine ⟨acts, s', ha, hr, hd, hacc, pre ++ acts, ?_⟩
+  rw [run_append, hpre]; simpa using hr
+
+/-- how long the lock can be held: pool.Poll() / try-send strictly decrease this measure … -/
+def holdMeasure (s : St) : Nat := passMeasure s
+
+/-- … every other action of a lock holder releases the lock; so a pass takes at most 2·|pool|+1 atoms and an
+    Offer one atom after `Lock`: Offer, notifyWorkers (Poll/Take/GetChannel) and Count wait for the lock only
+    boundedly -/
+theorem C07_lock_hold_bounded (s s' : St) (a : Act) (h : step s a = some s') (hl : s.lock ≠ .free)
+    (ha : a ≠ .recvWait ∧ a ≠ .recvTake ∧ a ≠ .tryRecv ∧ a ≠ .pollEmpty ∧ a ≠ .loaderWake) :
+    s'.lock = .free ∨ (s'.lock = s.lock ∧ holdMeasure s' < holdMeasure s) := by
+  cases a <;> simp only [step] at h <;> (repeat' split at h) <;> simp at h <;> (try subst h) <;>
+    simp_all [holdMeasure, passMeasure] <;> omega
+
+/-- no deadlock under the lock: whoever holds it has an enabled atom -/
+theorem C07_lock_holder_enabled (c b : Nat) (s : St) (h : Reach c b s) (hl : s.lock ≠ .free) :
+    ∃ a, (step s a).isSome ∧ a ≠ .recvWait ∧ a ≠ .recvTake ∧ a ≠ .tryRecv ∧ a ≠ .pollEmpty ∧ a ≠ .loaderWake ∧
+      a ≠ .notify := by
+  have i := reach_inv h
+  cases hk : s.lock with
+  | free => exact absurd hk hl
+  | producer v e =>
+    rcases C07_offer_total s v e hk with h1 | h1 | h1 | h1
+    · exact ⟨_, h1, by simp⟩
+    · exact ⟨_, h1, by simp⟩
+    · exact ⟨_, h1, by simp⟩
+    · exact ⟨_, h1, by simp⟩
+  | loader =>
+    cases hin : s.inflight with
+    | none =>
+      cases hp : s.pool with
+      | nil => exact ⟨.loaderDone, by simp [step, hk, hin, hp], by simp⟩
+      | cons x r => exact ⟨.loaderPoll, by simp [step, hk, hin, hp], by simp⟩
+    | some x =>
+      by_cases hc : s.chan.length < s.c
+      · exact ⟨.loaderSend, by simp [step, hk, hin, hc], by simp⟩
+      · by_cases hh : s.chan = [] ∧ 0 < s.waiters
+        · exact ⟨.loaderHandoff, by simp [step, hk, hin, hh], by simp⟩
+        · have hf : trySendFails s := by
+            refine ⟨by omega, ?_⟩
+            by_cases h0 : s.chan = []
+            · left; by_cases hw : 0 < s.waiters
+              · exact absurd ⟨h0, hw⟩ hh
+              · omega
+            · right; exact h0
+          exact ⟨.loaderUnshift, by simp [step, hk, hin, hf], by simp⟩
+
+/-- the composite calls the driver performs in directed schedules (`Offer`, `Poll`, the loader wake-up and the
+    loader's advance to its next park point) are sequences of `step`s: they never leave the reachable states, so
+    every theorem above applies to every state the driver visits -/
+theorem C07_driver_ops_reachable (c b : Nat) (s : St) (h : Reach c b s) (v : Nat) :
+    Reach c b (offerCall s v).1 ∧ Reach c b (pollCall s).1 ∧ Reach c b (syncLoader s) ∧
+    Reach c b (loaderNext s).1 ∧ ∀ a, Reach c b (stepD s a) :=
+  ⟨reach_offerCall v h, reach_pollCall h, reach_syncLoader h, reach_loaderNext h, fun a => reach_stepD a h⟩
+
+/-! ### ChannelQueue's own wrappers (the channel substrate) -/
+
+/-- try-send: appended at the tail iff there is room; the buffer never exceeds the capacity -/
+theorem C07_chq_offer (ch : Ch) (v : Nat) (hb : ch.buf.length ≤ ch.cap) :
+    ((chTrySend ch v).2 = true → (chTrySend ch v).1.buf = ch.buf ++ [v]) ∧
+    ((chTrySend ch v).2 = false → (chTrySend ch v).1 = ch ∧ ch.buf.length = ch.cap) ∧
+    (chTrySend ch v).1.buf.length ≤ (chTrySend ch v).1.cap := by
+  unfold chTrySend
+  split <;> simp <;> omega
+
+/-- try-receive: the head of the buffer, FIFO; `empty` only when nothing is buffered; **Poll on a closed,
+    drained ChannelQueue reports closed and invents no value** (fix 1a3cb23) -/
+theorem C07_chq_poll (ch : Ch) :
+    (∀ v ch', chTryRecv ch = (ch', .val v) → ch.buf = v :: ch'.buf) ∧
+    ((chTryRecv ch).2 = .empty → ch.buf = [] ∧ ch.closed = false) ∧
+    (ch.buf = [] → ch.closed = true → chTryRecv ch = (ch, .closed)) := by
+  unfold chTryRecv
+  cases hb : ch.buf with
+  | nil => cases hc : ch.closed <;> simp
+  | cons x r => simp
+
+/-! ### non-vacuity: reachable states with a full channel, a non-empty pool, an in-flight value -/
+
+def demo : List Act :=
+  [.offerLock 1, .offerChan 1, .offerLock 2, .offerPool 2, .offerLock 3, .offerPool 3,
+   .loaderWake, .loaderLock, .loaderPoll, .tryRecv, .loaderSend, .loaderPoll]
+
+example : run (init 1 2) demo = some ⟨1, 2, [2], [], some 3, false, .loader, .inpass, 0, [1, 2, 3], [1]⟩ := by decide
+
+example : ∃ s, Reach 1 2 s ∧ s.lock ≠ .free := by
+  cases h : run (init 1 2) demo with
+  | none => exact absurd h (by decide)
+  | some s => exact ⟨s, ⟨demo, h⟩, by
+      have : (run (init 1 2) demo).map (·.lock) = some .loader := by decide
+      rw [h] at this; simp at this; simp [this]⟩
+
+/-- Offer returns Full in a reachable state: c = 1, b = 1, two values held -/
+example : (run (init 1 1) [.offerLock 1, .offerChan 1, .offerLock 2, .offerPool 2, .offerLock 3, .offerFull 3]).isSome = true := by
+  decide
+
+/-- rendezvous with an unbuffered channel (c = 0): a waiting consumer gets the value directly -/
+example : run (init 0 1) [.notify, .recvWait, .offerLock 7, .offerHandoff 7] =
+    some ⟨0, 1, [], [], none, true, .free, .waiting, 0, [7], [7]⟩ := by decide
+
+/-- the stranding state of the DESIGN analysis is reachable and legal: pool non-empty, channel empty, no token,
+    loader asleep — the next Take/Poll posts a token (`C07_progress`) -/
+example : run (init 1 1) [.offerLock 1, .offerChan 1, .offerLock 2, .offerPool 2, .loaderWake, .loaderLock,
+      .loaderPoll, .loaderUnshift, .tryRecv] =
+    some ⟨1, 1, [], [2], none, false, .free, .waiting, 0, [1, 2], [1]⟩ := by decide
+
+/-- observation (not a violation of the property as stated): a consumer already blocked in `Take` (waiters = 1)
+    while the loader's pass found the channel full is not served until the NEXT Take/Poll/GetChannel call by
+    anyone posts a token — pool non-empty, channel empty, no token, loader asleep, lock free -/
+example : run (init 1 1) [.offerLock 1, .offerChan 1, .offerLock 2, .offerPool 2, .notify, .recvWait, .notify, .recvWait,
+      .loaderWake, .loaderLock, .loaderPoll, .loaderUnshift, .recvTake] =
+    some ⟨1, 1, [], [2], none, false, .free, .waiting, 1, [1, 2], [1]⟩ := by decide
+
+/-! ### closing theorems over data regenerated from queue.go on every run -/
+
+theorem C07_skel_offer : Gen.skeletonOf "BufferedChannelQueue.Offer" = some
+    "call(lock.Lock) defer{call(lock.Unlock)} if[get(isClosed) call(isClosed.Get)]{return} get(pool) call(pool.Count) if[]{call(blockingQueue.Offer) if[]{return}else{if[]{}else{return}}} if[]{return} get(pool) call(pool.Offer) call(loadWorkerCh.Offer) return" := by decide +kernel
+theorem C07_skel_put : Gen.skeletonOf "BufferedChannelQueue.Put" = some "call(Offer) return" := by decide +kernel
+theorem C07_skel_take : Gen.skeletonOf "BufferedChannelQueue.Take" = some
+    "if[get(isClosed) call(isClosed.Get)]{return} call(notifyWorkers) call(blockingQueue.Take) return" := by decide +kernel
+theorem C07_skel_takeWithTimeout : Gen.skeletonOf "BufferedChannelQueue.TakeWithTimeout" = some
+    "if[get(isClosed) call(isClosed.Get)]{return} call(notifyWorkers) call(blockingQueue.TakeWithTimeout) return" := by decide +kernel
+theorem C07_skel_poll : Gen.skeletonOf "BufferedChannelQueue.Poll" = some
+    "if[get(isClosed) call(isClosed.Get)]{return} call(notifyWorkers) call(blockingQueue.Poll) return" := by decide +kernel
+theorem C07_skel_getChannel : Gen.skeletonOf "BufferedChannelQueue.GetChannel" = some
+    "call(notifyWorkers) return" := by decide +kernel
+theorem C07_skel_count : Gen.skeletonOf "BufferedChannelQueue.Count" = some
+    "if[get(isClosed) call(isClosed.Get)]{return} call(lock.RLock) defer{call(lock.RUnlock)} get(pool) call(pool.Count) return" := by decide +kernel
+theorem C07_skel_notifyWorkers : Gen.skeletonOf "BufferedChannelQueue.notifyWorkers" = some
+    "call(lock.RLock) defer{call(lock.RUnlock)} if[get(isClosed) call(isClosed.Get)]{return} call(loadWorkerCh.Offer) call(freeNodeWorkerCh.Offer)" := by decide +kernel
+theorem C07_skel_loadFromPool : Gen.skeletonOf "BufferedChannelQueue.loadFromPool" = some
+    "rangech(loadWorkerCh){if[get(isClosed) call(isClosed.Get)]{break} call(lock.Lock) if[get(isClosed) call(isClosed.Get)]{call(lock.Unlock) break} for[get(pool) call(pool.Count)]{get(pool) call(pool.Poll) if[]{break} call(blockingQueue.Offer) if[]{get(pool) call(pool.Unshift) break}} call(lock.Unlock) call(Sleep)}" := by decide +kernel
+theorem C07_skel_freeNodePool : Gen.skeletonOf "BufferedChannelQueue.freeNodePool" = some
+    "rangech(freeNodeWorkerCh){call(Sleep) if[get(isClosed) call(isClosed.Get)]{break} call(lock.Lock) if[get(pool)]{get(pool) call(pool.KeepNodePoolCount)} call(lock.Unlock)}" := by decide +kernel
+theorem C07_skel_close : Gen.skeletonOf "BufferedChannelQueue.Close" = some
+    "call(lock.Lock) defer{call(lock.Unlock)} get(isClosed) call(isClosed.Set) call(close) call(close)" := by decide +kernel
+theorem C07_skel_new : Gen.skeletonOf "NewBufferedChannelQueue" = some
+    "call(NewLinkedListQueue) set(pool) call(NewChannelQueue) call(NewChannelQueue) call(NewChannelQueue) go{call(freeNodePool)} go{call(loadFromPool)} return" := by decide +kernel
+theorem C07_skel_chq_put : Gen.skeletonOf "ChannelQueue.Put" = some "send(q) return" := by decide +kernel
+theorem C07_skel_chq_putWithTimeout : Gen.skeletonOf "ChannelQueue.PutWithTimeout" = some
+    "select{send(q)=>{return} | call(After) recv(After())=>{return}}" := by decide +kernel
+theorem C07_skel_chq_take : Gen.skeletonOf "ChannelQueue.Take" = some "recv(q) if[]{return} return" := by decide +kernel
+theorem C07_skel_chq_takeWithTimeout : Gen.skeletonOf "ChannelQueue.TakeWithTimeout" = some
+    "select{recv(q)=>{if[]{return} return} | call(After) recv(After())=>{return}}" := by decide +kernel
+theorem C07_skel_chq_offer : Gen.skeletonOf "ChannelQueue.Offer" = some
+    "select{send(q)=>{return} | default=>{return}}" := by decide +kernel
+theorem C07_skel_chq_poll : Gen.skeletonOf "ChannelQueue.Poll" = some
+    "select{recv(q)=>{if[]{return} return} | default=>{return}}" := by decide +kernel
+
+/-- the guards the skeleton does not carry: `poolCount == 0` decides channel-vs-pool, `poolCount >=
+    bufferSizeMaximum` is the bound check (`offerFull` / `offerPool`), the loader loops while
+    `pool.Count() > 0`, and `Count()` adds the channel length and the pool count -/
+theorem C07_guards_offer : Gen.bcqGuardsOf "Offer" = some
+    ["if q.isClosed.Get()", "return ErrQueueIsClosed", "set poolCount := q.pool.Count()", "if poolCount == 0",
+     "set err := q.blockingQueue.Offer(val)", "if err == nil", "return nil", "if err == ErrQueueIsFull", "return err",
+     "if poolCount >= q.bufferSizeMaximum", "return ErrQueueIsFull", "return nil"] := by decide +kernel
+theorem C07_guards_loader : Gen.bcqGuardsOf "loadFromPool" = some
+    ["if q.isClosed.Get()", "if q.isClosed.Get()", "for q.pool.Count() > 0", "set val, pollErr = q.pool.Poll()",
+     "if pollErr != nil", "set offerErr = q.blockingQueue.Offer(val)", "if offerErr != nil"] := by decide +kernel
+theorem C07_guards_count : Gen.bcqGuardsOf "Count" = some
+    ["if q.isClosed.Get()", "return 0", "return len(q.blockingQueue) + q.pool.Count()"] := by decide +kernel
+theorem C07_guards_consumers :
+    Gen.bcqGuardsOf "Poll" = some ["if q.isClosed.Get()", "return *new(T), ErrQueueIsClosed", "return q.blockingQueue.Poll()"] ∧
+    Gen.bcqGuardsOf "Take" = some ["if q.isClosed.Get()", "return *new(T), ErrQueueIsClosed", "return q.blockingQueue.Take()"] ∧
+    Gen.bcqGuardsOf "TakeWithTimeout" = some ["if q.isClosed.Get()", "return *new(T), ErrQueueIsClosed", "return q.blockingQueue.TakeWithTimeout(timeout)"] ∧
+    Gen.bcqGuardsOf "GetChannel" = some ["return q.blockingQueue"] ∧
+    Gen.bcqGuardsOf "Put" = some ["return q.Offer(val)"] ∧
+    Gen.bcqGuardsOf "notifyWorkers" = some ["if q.isClosed.Get()", "return"] := by decide +kernel
+
+end FpgoVerif.C07
